@@ -4,6 +4,7 @@ import PpciVerif.Spec.ConstExpr
 import PpciVerif.Gen.ConstFold
 import PpciVerif.Proofs.IRArith
 import PpciVerif.Proofs.ConstFold
+import PpciVerif.Proofs.T1_constantfolding
 /-!
 # C38 — constant folding agrees with run-time arithmetic
 
@@ -306,5 +307,56 @@ example : isConst (.other i8 0) = false ∧ (Expr.other i8 0).ty = tyOf .i8 := b
 example : onInstr (.binop i8 "%" (.const i8 5) (.const i8 0)) = .ok .keep := by decide +kernel
 example : onInstr (.binop i8 "<<" (.const i8 1) (.const i8 (-1))) = .ok .keep := by decide +kernel
 example : evalConst (.binop i8 "%" (.const i8 5) (.const i8 0)) = .error .ZeroDivisionError := by decide +kernel
+
+/-! ### T1 translation tie: `correct`, `cast`, `irem` REGENERATED from `ppci/opt/constantfolding.py`
+
+`Gen.Py_constantfolding.*` is written by `translate/py2lean.py` from the source text of the checked
+tree on every run; the `ty` object appears as the attributes the functions read (`ty.bits`,
+`ty.signed`, `ty.is_integer`, the two `isinstance` tests), each an `Int`.  The regenerated helpers
+ARE the hand model's, for every value and every type descriptor; then the two facts the folding
+theorems rest on (`correct` = the specification's `wrap`, `irem` = truncating remainder) are
+restated about the regenerated functions. -/
+section T1
+open Proofs.T1.ConstFold Model.PyRt
+
+theorem gen_correct_eq_model (fuel : Nat) (value : Int) (ty : Typ) :
+    Gen.Py_constantfolding.correct fuel value (ty.bits : Int) (Model.PyRt.ofBool ty.signed) = .ok (Model.ConstFold.correct value ty) :=
+  Proofs.T1.ConstFold.gen_correct_eq_model fuel value ty
+
+theorem gen_cast_eq_model (fuel : Nat) (value : Int) (ty : Typ) (isFloat : Int) :
+    Gen.Py_constantfolding.cast fuel value 0 1 (ty.bits : Int) (Model.PyRt.ofBool ty.signed) isFloat
+      = .ok (Model.ConstFold.cast value ty) :=
+  Proofs.T1.ConstFold.gen_cast_eq_model fuel value ty isFloat
+
+theorem gen_irem_eq_model (fuel : Nat) (a b : Int) :
+    Gen.Py_constantfolding.irem fuel a b = liftI (Model.ConstFold.irem a b) :=
+  Proofs.T1.ConstFold.gen_irem_eq_model fuel a b
+
+/-- the regenerated `correct` is the specification's `wrap`, for each of the eight integer types -/
+theorem gen_correct_eq_wrap (fuel : Nat) (ty : Ty) (x : Int) :
+    Gen.Py_constantfolding.correct fuel x ((tyOf ty).bits : Int) (Model.PyRt.ofBool (tyOf ty).signed) = .ok (wrap ty x) := by
+  rw [gen_correct_eq_model, correct_eq_wrap]
+
+/-- the regenerated `cast` of an int to an integer type is the run-time cast, and in range -/
+theorem gen_cast_agrees (fuel : Nat) (to : Ty) (v : Int) (isFloat : Int) :
+    Gen.Py_constantfolding.cast fuel v 0 1 ((tyOf to).bits : Int) (Model.PyRt.ofBool (tyOf to).signed) isFloat
+      = .ok (Spec.IRArith.cast to v) ∧ InRange to (Spec.IRArith.cast to v) := by
+  refine ⟨?_, cast_inRange to v⟩
+  rw [gen_cast_eq_model]
+  simp [Model.ConstFold.cast, correct_eq_wrap, Spec.IRArith.cast]
+
+/-- the regenerated `irem` is the remainder of the truncating division; it raises exactly for 0 -/
+theorem gen_irem_eq_tmod (fuel : Nat) (a b : Int) :
+    (b ≠ 0 → Gen.Py_constantfolding.irem fuel a b = .ok (Int.tmod a b)) ∧
+    (b = 0 → Gen.Py_constantfolding.irem fuel a b = .error .ZeroDivisionError) := by
+  rw [gen_irem_eq_model]
+  constructor
+  · intro hb; rw [irem_eq_tmod a b hb]; rfl
+  · intro hb; subst hb; simp [Model.ConstFold.irem, pyMod, pyAbs, liftI, errOf]
+
+example : Gen.Py_constantfolding.irem 0 (-7) 3 = .ok (-1) := by decide +kernel
+example : Gen.Py_constantfolding.correct 0 200 8 1 = .ok (-56) := by decide +kernel
+
+end T1
 
 end Props.C38
